@@ -129,6 +129,30 @@ func Verif_C10_remove() {
 	a := verifChoose("advance", verifParam("maxRev")*n)
 	verifAssume(a < steps1)
 	env.ticks(a)
+	// optionally the task is re-scheduled (moved, or set again with a new value) before it is
+	// removed: the re-scheduled entry may land in the very slot that still holds the stale one
+	b := 0
+	resched := 0
+	if verifParam("resched") == 1 { // H10k
+		resched = 1 + verifChoose("rescheduleFirst", 2)
+	}
+	switch resched {
+	case 1:
+		dm, stepsM := verifDelay("dm", n, I)
+		env.w.moveTask(baseEntry{delay: dm, key: "a"})
+		b = verifChoose("advance2", 2) // removed at once or one tick later
+		verifAssume(b < stepsM)
+		env.ticks(b)
+		verifReach("moved-then-removed")
+	case 2:
+		dm, stepsM := verifDelay("dm", n, I)
+		env.w.setTask(&timingEntry{baseEntry: baseEntry{delay: dm, key: "a"}, value: 3})
+		b = verifChoose("advance2", 2)
+		verifAssume(b < stepsM)
+		env.ticks(b)
+		verifReach("reset-then-removed")
+	}
+	a += b
 	env.w.removeTask("a")
 	again := verifChoose("setAgain", 2) == 1
 	steps2 := 0
